@@ -215,7 +215,7 @@ func (nv *nodeVariable) Execute(ctx *ExecutionContext, writer TemplateWriter) *E
 		// apply escape filter
 		value, err = filters["escape"](value, nil)
 		if err != nil {
-			return err
+			return err.updateFromTokenIfNeeded(ctx.template, nv.locationToken)
 		}
 	}
 
